@@ -8,6 +8,8 @@ import (
 	"fmt"
 	"os"
 	"path/filepath"
+	"runtime/debug"
+	"runtime/pprof"
 	"sort"
 	"strings"
 	"sync"
@@ -74,7 +76,15 @@ func main() {
 	paramOverride := flag.String("params", "", "override: k=v,k=v (single instance)")
 	noReplay := flag.Bool("no-replay", false, "do not replay violations natively")
 	replayFile := flag.String("replay", "", "replay a recorded counterexample natively")
+	cpuprof := flag.String("cpuprofile", "", "write cpu profile")
+	maxSec := flag.Int("max-seconds", 0, "per-instance deadline override")
 	flag.Parse()
+	debug.SetGCPercent(800)
+	if *cpuprof != "" {
+		f, _ := os.Create(*cpuprof)
+		pprof.StartCPUProfile(f)
+		defer pprof.StopCPUProfile()
+	}
 	if *replayFile != "" {
 		os.Exit(replayMain(*replayFile, *verifDir))
 	}
@@ -89,8 +99,10 @@ func main() {
 		*tier = t
 	}
 	d := &driver{prop: *prop, tier: *tier, workers: *workers, seed: *seed, verif: *verifDir, only: *only,
-		verbose: *verbose, solver: *solver, paramOverride: *paramOverride, noReplay: *noReplay}
-	os.Exit(d.main())
+		verbose: *verbose, solver: *solver, paramOverride: *paramOverride, noReplay: *noReplay, maxSec: *maxSec}
+	code := d.main()
+	pprof.StopCPUProfile()
+	os.Exit(code)
 }
 
 func flagSet(name string) bool {
@@ -113,6 +125,7 @@ type driver struct {
 	solver        string
 	paramOverride string
 	noReplay      bool
+	maxSec        int
 
 	cfg   Config
 	start time.Time
@@ -288,6 +301,9 @@ func (d *driver) explore(prog *interp.Program, insts []instance) []*result {
 				}
 				if in.h.Preemptions != nil {
 					lim.Preemptions = *in.h.Preemptions
+				}
+				if d.maxSec > 0 {
+					in.h.MaxSeconds = d.maxSec
 				}
 				if in.h.MaxSeconds > 0 {
 					lim.Deadline = time.Now().Add(time.Duration(in.h.MaxSeconds) * time.Second)
